@@ -196,6 +196,8 @@ def parse_rvalue(s):
         for pre, k in (("raw const ", "raw"), ("raw mut ", "raw"), ("mut ", "ref"), ("fake shallow ", "ref"), ("fake ", "ref"), ("two_phase ", "ref")):
             if body.startswith(pre):
                 body = body[len(pre):]; kind = k; break
+        for pre in ("(fake) ", "(fake shallow) "):            # `&raw const (fake) (*_1)`: the borrow a match guard takes
+            if body.startswith(pre): body = body[len(pre):]
         return ("ref", parse_place(body))
     m = re.match(r"(\w+)\((.*)\)$", s, re.S)
     if m:
